@@ -1,7 +1,7 @@
 (* Props/C04.v — the property theorems for C04 (unmodified records and fields are written back byte-for-byte).
    Only statements, `exact <lemma>` and Print Assumptions live here. *)
 From Coq Require Import ZArith List Bool String Lia.
-From BNP Require Import Base.Prims Model.C04 Proofs.C04 Proofs.C04_raw.
+From BNP Require Import Base.Prims Model.C04 Proofs.C04 Proofs.C04_raw Proofs.C04_bam.
 Import ListNotations.
 Open Scope Z_scope.
 
@@ -102,6 +102,23 @@ Theorem C04_delimited_end_to_end :
     spec_out_ok f recs p (Some out) = true.
 Proof. exact delimited_selection_end_to_end. Qed.
 Print Assumptions C04_delimited_end_to_end.
+
+(* T1 for BAM — the block-size chain (_find_starts / from_raw_buffer) splits the concatenation of ANY >= 1 records whose
+   block_size field is consistent into exactly those records (well-formed, contiguous extractor). *)
+Theorem C04_from_raw_bam :
+  forall raws, raws <> [] -> Forall bam_wf raws ->
+    exists x, from_bam (List.concat raws) = Some x /\ Inv x /\ view x = map bv raws /\ x_contig x = true.
+Proof. exact from_bam_correct. Qed.
+Print Assumptions C04_from_raw_bam.
+
+(* END TO END for BAM: every selection program on the records of a BAM file writes exactly the selected records' bytes *)
+Theorem C04_bam_end_to_end :
+  forall v recs p out,
+    recs <> [] -> Forall bam_rec_wf recs -> cat_free p = true -> repl_free p = true ->
+    model_out_v v FBam (layout FBam recs) p = Some out ->
+    spec_out_ok FBam recs p (Some out) = true.
+Proof. exact bam_selection_end_to_end. Qed.
+Print Assumptions C04_bam_end_to_end.
 
 (* ---- the full statement "model output satisfies the Spec for every file and program" is FALSE for the code at HEAD:
    witnesses (each is the replay of a finding) ---- *)
